@@ -427,12 +427,10 @@ func (st *rstate) loop(w *strings.Builder, n gen.For) (ctl, Status) {
 			return ctlNone, s
 		}
 		if n.Tablerow {
-			if c == ctlBreak {
-				return ctlNone, Unsp // tablerow after break: not stated
-			}
-			// continue skips to the next iteration; the item is still wrapped in its td
+			// continue skips to the next iteration and break leaves the loop; the item is still wrapped in its td,
+			// and the row it stands in - like the last row of a collection that ends mid-row - in its tr
 			w.WriteString("</td>")
-			if cols > 0 && (i+1)%cols == 0 || i+1 == L {
+			if cols > 0 && (i+1)%cols == 0 || i+1 == L || c == ctlBreak {
 				w.WriteString("</tr>")
 			}
 		}
